@@ -2,7 +2,6 @@
 
 from __future__ import annotations
 
-import ast
 import datetime as _dt
 
 from sa import term as T
@@ -28,13 +27,6 @@ class Stub:
         self.__dict__.update(kw)
 
 
-def norm_(node) -> str:
-    return ast.unparse(node).replace(' ', '')
-
-
-def stmts(fn) -> list[str]:
-    return [norm_(s) for s in ast.walk(fn) if isinstance(s, ast.stmt)
-            and not isinstance(s, ast.FunctionDef | ast.If | ast.For | ast.Try | ast.With | ast.While)]
 
 
 def sv(it, name, unit, kind='scalar', dtype=None):
